@@ -775,7 +775,12 @@ def main(chk: Check):
         if doc_valid(c) and in_grid(c) and not known_region(c) and cost(c) <= 800:
             det_cfgs.append(c)
     for c in det_cfgs:
-        fails, d = determinism_tests(c, rng)
+        r = call(determinism_tests, c, rng)
+        if r[0] == "raise":  # a valid, supported configuration must build and run: a concrete failing input
+            chk.fail(f"C14 fails: valid configuration raised during the determinism test ({r[1]}: {r[2][:120]})",
+                     {"cfg": c, "calls": "a*S x b*S inputs, see determinism_tests"}, r[1], [])
+            continue
+        fails, d = r[1]
         det["families"][c["fam"]] = det["families"].get(c["fam"], 0) + 1
         det["configs"] += 1
         for k, v in d.items():
@@ -800,7 +805,12 @@ def main(chk: Check):
         if doc_valid(c) and in_grid(c) and not known_region(c) and cost(c) <= 800:
             extra_cfgs.append(c)
     for c in fixed + extra_cfgs:
-        fails, st = batch_independence_tests(c, rng)
+        r = call(batch_independence_tests, c, rng)
+        if r[0] == "raise":
+            chk.fail(f"C14 fails: valid configuration raised during the batch-independence test ({r[1]}: {r[2][:120]})",
+                     {"cfg": c, "calls": "mixed-range batches of a*S x b*S frames"}, r[1], [])
+            continue
+        fails, st = r[1]
         bt["configs"] += 1
         bt["comparisons"] += st["comparisons"]
         bt["worst_relative_deviation"] = max(bt["worst_relative_deviation"], st["worst_relative_deviation"])
@@ -819,7 +829,7 @@ def main(chk: Check):
         "unet_convs_per_block_lt_2 (known finding)": sum(v for k, v in chk.hist.items()
                                                          if k.startswith("oracle_fail:unet_convs_per_block_lt_2")),
     }
-    if det["configs"] < 3 or bt["configs"] < 3:
+    if (det["configs"] < 3 or bt["configs"] < 3) and not chk.failing:
         chk.broken.append("numeric clause of C14 not exercised for every backbone family")
 
     # (3) corpus, then generated cases
